@@ -1,0 +1,523 @@
+//! Verification hooks (cargo feature `verif`).
+//!
+//! Nothing in this module is compiled unless the `verif` feature is enabled.
+//! It exposes the server core and the worker state machine without sockets, so
+//! that an external harness can drive them deterministically and observe
+//! their state after every step.
+
+use std::rc::Rc;
+use std::time::{Duration, Instant};
+
+use bytes::Bytes;
+use serde_json::{Value, json};
+use tokio::sync::Notify;
+use tokio::sync::mpsc::{UnboundedReceiver, unbounded_channel};
+
+use crate::control::ServerRef;
+use crate::gateway::LostWorkerReason;
+use crate::internal::common::resources::map::ResourceIdMap;
+use crate::internal::messages::worker::{
+    FromWorkerMessage, NewWorkerMsg, ToWorkerMessage, WorkerRegistrationResponse,
+};
+use crate::internal::scheduler::{SchedulerConfig, SchedulerResult, run_scheduling};
+use crate::internal::server::comm::{Comm, CommSenderRef};
+use crate::internal::server::core::{CoreRef, CoreSplit};
+use crate::internal::server::reactor::{
+    on_new_worker, on_remove_worker, on_retract_response, on_task_update,
+};
+use crate::internal::server::task::TaskRuntimeState;
+use crate::internal::server::worker::{Worker, WorkerAssignment};
+use crate::internal::transfer::auth::{deserialize, serialize};
+use crate::internal::worker::comm::WorkerComm;
+use crate::internal::worker::configuration::{WorkerConfiguration, sync_worker_configuration};
+use crate::internal::worker::rpc::process_worker_message;
+use crate::internal::worker::state::WorkerStateRef;
+use crate::launcher::TaskLauncher;
+use crate::resources::ResourceAmount;
+use crate::{Map, TaskId, WorkerId};
+
+pub fn task_id_num(t: TaskId) -> u64 {
+    t.job_id().as_num() as u64 * 1000 + t.job_task_id().as_num() as u64
+}
+
+fn user_priority_of(p: crate::Priority) -> i32 {
+    let raw = serde_json::to_value(p).unwrap().as_u64().unwrap();
+    (((raw >> 32) as u32) ^ 0x8000_0000) as i32
+}
+
+fn ids_of(ids: &crate::internal::scheduler::OneOrMoreTaskIds) -> Vec<TaskId> {
+    match ids {
+        crate::internal::scheduler::OneOrMoreTaskIds::One(t) => vec![*t],
+        crate::internal::scheduler::OneOrMoreTaskIds::More(ts) => ts.iter().copied().collect(),
+    }
+}
+
+fn amount_json(a: ResourceAmount) -> Value {
+    if a.is_max() {
+        json!(-1)
+    } else {
+        let (u, f) = a.split();
+        json!(u as u64 * 10_000 + f as u64)
+    }
+}
+
+/// The server core + reactor + scheduler without a listener.
+pub struct SimServer {
+    core_ref: CoreRef,
+    comm_ref: CommSenderRef,
+    server_ref: ServerRef,
+    outboxes: Map<WorkerId, UnboundedReceiver<Bytes>>,
+}
+
+impl SimServer {
+    pub fn new(
+        server_uid: String,
+        worker_id_initial_value: WorkerId,
+        scheduler_config: SchedulerConfig,
+    ) -> Self {
+        let scheduler_wakeup = Rc::new(Notify::new());
+        let comm_ref = CommSenderRef::new(scheduler_wakeup, false);
+        let core_ref = CoreRef::new(
+            0,
+            None,
+            None,
+            None,
+            server_uid,
+            worker_id_initial_value,
+            scheduler_config,
+        );
+        let server_ref = ServerRef::verif_from_parts(core_ref.clone(), comm_ref.clone());
+        SimServer {
+            core_ref,
+            comm_ref,
+            server_ref,
+            outboxes: Map::new(),
+        }
+    }
+
+    pub fn server_ref(&self) -> ServerRef {
+        self.server_ref.clone()
+    }
+
+    /// Mirrors the prologue of `worker_rpc_loop` (id allocation, `on_new_worker`,
+    /// registration response, `comm.add_worker`).
+    pub fn connect_worker(
+        &mut self,
+        mut configuration: WorkerConfiguration,
+        now: Instant,
+    ) -> (WorkerId, WorkerConfiguration, WorkerRegistrationResponse) {
+        let worker_id = self.core_ref.get_mut().new_worker_id();
+        sync_worker_configuration(&mut configuration, *self.core_ref.get().idle_timeout());
+        let (queue_sender, queue_receiver) = unbounded_channel::<Bytes>();
+        {
+            let mut core = self.core_ref.get_mut();
+            for item in &configuration.resources.resources {
+                core.get_or_create_resource_id(&item.name);
+            }
+            let worker = Worker::new(
+                worker_id,
+                configuration.clone(),
+                &core.create_resource_map(),
+                now,
+            );
+            on_new_worker(&mut core, &mut *self.comm_ref.get_mut(), worker);
+        }
+        let message = {
+            let core = self.core_ref.get();
+            WorkerRegistrationResponse {
+                worker_id,
+                resource_names: core.create_resource_map().into_vec(),
+                resource_rq_map: core.get_resource_rq_map().clone(),
+                other_workers: core
+                    .get_workers()
+                    .filter_map(|w| {
+                        if w.id != worker_id {
+                            Some(NewWorkerMsg {
+                                worker_id: w.id(),
+                                address: w.configuration().listen_address.clone(),
+                                resources: w.resources.to_transport(),
+                            })
+                        } else {
+                            None
+                        }
+                    })
+                    .collect(),
+                server_idle_timeout: *core.idle_timeout(),
+                server_uid: core.server_uid().to_string(),
+                worker_overview_interval_override: None,
+            }
+        };
+        self.comm_ref.get_mut().add_worker(worker_id, queue_sender);
+        self.outboxes.insert(worker_id, queue_receiver);
+        (worker_id, configuration, message)
+    }
+
+    /// Messages the server has put on the connection of `worker_id` since the last call.
+    pub fn take_messages(&mut self, worker_id: WorkerId) -> Vec<ToWorkerMessage> {
+        let mut out = Vec::new();
+        if let Some(rx) = self.outboxes.get_mut(&worker_id) {
+            while let Ok(data) = rx.try_recv() {
+                out.push(deserialize(&data).unwrap());
+            }
+        }
+        out
+    }
+
+    /// Mirrors the `match` of `worker_receive_loop`. Returns true when the worker announced its stop.
+    pub fn recv_from_worker(&mut self, worker_id: WorkerId, message: FromWorkerMessage) -> bool {
+        let mut core = self.core_ref.get_mut();
+        let mut comm = self.comm_ref.get_mut();
+        match message {
+            FromWorkerMessage::TaskUpdate(updates) => {
+                on_task_update(&mut core, &mut *comm, worker_id, updates);
+            }
+            FromWorkerMessage::RetractResponse(msg) => {
+                on_retract_response(&mut core, &mut *comm, worker_id, &msg.retracted);
+            }
+            FromWorkerMessage::Heartbeat => {}
+            FromWorkerMessage::Overview(overview) => {
+                comm.client().on_worker_overview(overview);
+            }
+            FromWorkerMessage::Stop(_) => return true,
+            FromWorkerMessage::Notify(notify) => {
+                comm.client()
+                    .on_task_notify(notify.task_id, worker_id, notify.message);
+            }
+        }
+        false
+    }
+
+    /// Mirrors the epilogue of `worker_rpc_loop`.
+    pub fn lose_worker(&mut self, worker_id: WorkerId, reason: LostWorkerReason) {
+        let mut core = self.core_ref.get_mut();
+        let mut comm = self.comm_ref.get_mut();
+        let reason = core
+            .get_worker(worker_id)
+            .stop_reason
+            .map(|(r, _)| r)
+            .unwrap_or(reason);
+        comm.remove_worker(worker_id);
+        self.outboxes.remove(&worker_id);
+        on_remove_worker(&mut core, &mut *comm, worker_id, reason);
+    }
+
+    pub fn has_worker(&self, worker_id: WorkerId) -> bool {
+        self.core_ref.get().get_worker_map().contains_key(&worker_id)
+    }
+
+    pub fn scheduling_flag(&self) -> bool {
+        self.comm_ref.get().get_scheduling_flag()
+    }
+
+    /// One round of `scheduler_loop` (without the minimum delay): run the scheduler if asked for,
+    /// then clear the flag. Returns "done" / "need_more" / "no_progress" / "idle".
+    pub fn schedule(&mut self, now: Instant) -> &'static str {
+        if !self.comm_ref.get().get_scheduling_flag() {
+            return "idle";
+        }
+        let r = run_scheduling(
+            &mut self.core_ref.get_mut(),
+            &mut self.comm_ref.get_mut(),
+            now,
+        );
+        self.comm_ref.get_mut().reset_scheduling_flag();
+        match r {
+            SchedulerResult::Done => "done",
+            SchedulerResult::NeedMoreCompute => "need_more",
+            SchedulerResult::NoProgress => "no_progress",
+        }
+    }
+
+    /// Moves the termination time of a worker (server side view) so that `remaining` is left at `now`.
+    pub fn set_worker_remaining_time(&mut self, worker_id: WorkerId, now: Instant, remaining: Duration) {
+        if let Some(w) = self.core_ref.get_mut().find_worker_mut(worker_id) {
+            w.termination_time = Some(now + remaining);
+        }
+    }
+
+    pub fn worker_counter(&self) -> u32 {
+        self.core_ref.get().worker_counter()
+    }
+
+    /// Projection of the core onto plain data.
+    pub fn snapshot(&self) -> Value {
+        let core = self.core_ref.get();
+        let CoreSplit {
+            task_map,
+            worker_map,
+            request_map,
+            task_queues,
+            scheduler_state,
+            ..
+        } = core.split();
+        let mut tasks: Vec<Value> = task_map
+            .tasks()
+            .map(|t| {
+                let (st, w, v, nd, ws): (&str, u32, i64, u32, Vec<u32>) = match &t.state {
+                    TaskRuntimeState::Waiting { unfinished_deps } => {
+                        ("W", 0, -1, *unfinished_deps, vec![])
+                    }
+                    TaskRuntimeState::Assigned { worker_id, rv_id } => {
+                        ("A", worker_id.as_num(), rv_id.as_num() as i64, 0, vec![])
+                    }
+                    TaskRuntimeState::Prefilled { worker_id } => {
+                        ("P", worker_id.as_num(), -1, 0, vec![])
+                    }
+                    TaskRuntimeState::Retracting { worker_id } => {
+                        ("R", worker_id.as_num(), -1, 0, vec![])
+                    }
+                    TaskRuntimeState::Running { worker_id, rv_id } => {
+                        ("X", worker_id.as_num(), rv_id.as_num() as i64, 0, vec![])
+                    }
+                    TaskRuntimeState::RunningMultiNode(ws) => (
+                        "M",
+                        ws.first().map(|w| w.as_num()).unwrap_or(0),
+                        0,
+                        0,
+                        ws.iter().map(|w| w.as_num()).collect(),
+                    ),
+                    TaskRuntimeState::Finished => ("F", 0, -1, 0, vec![]),
+                };
+                let mut consumers: Vec<u64> =
+                    t.get_consumers().iter().map(|c| task_id_num(*c)).collect();
+                consumers.sort_unstable();
+                let mut deps: Vec<u64> = t.task_deps.iter().map(|c| task_id_num(*c)).collect();
+                deps.sort_unstable();
+                json!({
+                    "id": task_id_num(t.id), "st": st, "w": w, "v": v, "nd": nd, "ws": ws,
+                    "inst": t.instance_id.as_num(), "crash": t.crash_counter,
+                    "rq": t.resource_rq_id.as_num(), "prio": t.configuration.user_priority,
+                    "consumers": consumers, "deps": deps,
+                })
+            })
+            .collect();
+        tasks.sort_by_key(|t| t["id"].as_u64());
+
+        let mut workers: Vec<Value> = worker_map
+            .get_workers()
+            .map(|w| {
+                let mut blocked: Vec<Value> = w
+                    .blocked_requests
+                    .iter()
+                    .map(|(rq, v)| json!([rq.as_num(), v.as_num()]))
+                    .collect();
+                blocked.sort_by_key(|b| (b[0].as_u64(), b[1].as_u64()));
+                let total: Vec<Value> = w.resources.iter_amounts().map(amount_json).collect();
+                match w.assignment() {
+                    WorkerAssignment::Sn(sn) => {
+                        let mut assigned: Vec<u64> =
+                            sn.assigned_tasks.iter().map(|t| task_id_num(*t)).collect();
+                        assigned.sort_unstable();
+                        let mut prefilled: Vec<u64> =
+                            sn.prefilled_tasks.iter().map(|t| task_id_num(*t)).collect();
+                        prefilled.sort_unstable();
+                        let free: Vec<Value> =
+                            sn.free_resources.iter_amounts().map(amount_json).collect();
+                        json!({"id": w.id.as_num(), "kind": "sn", "assigned": assigned,
+                               "prefilled": prefilled, "free": free, "total": total,
+                               "blocked": blocked, "stopping": w.is_stopping(),
+                               "group": w.configuration.group, "mn": 0, "root": false})
+                    }
+                    WorkerAssignment::Mn(mn) => {
+                        json!({"id": w.id.as_num(), "kind": "mn", "assigned": [], "prefilled": [],
+                               "free": [], "total": total, "blocked": blocked,
+                               "stopping": w.is_stopping(), "group": w.configuration.group,
+                               "mn": task_id_num(mn.task_id), "root": mn.is_root})
+                    }
+                }
+            })
+            .collect();
+        workers.sort_by_key(|w| w["id"].as_u64());
+
+        let queues: Vec<Value> = task_queues
+            .iter()
+            .map(|q| {
+                let mut ready: Vec<Value> = Vec::new();
+                for (p, ids) in q.queue.iter() {
+                    for t in ids_of(ids) {
+                        ready.push(json!({"t": task_id_num(t), "p": user_priority_of(p.0)}));
+                    }
+                }
+                let (pp, mut ps): (i64, Vec<u64>) = match &q.prefill {
+                    None => (-1, vec![]),
+                    Some((p, s)) => (
+                        user_priority_of(*p) as i64,
+                        s.iter().map(|t| task_id_num(*t)).collect(),
+                    ),
+                };
+                ps.sort_unstable();
+                json!({"rq": q.resource_rq_id.as_num(), "ready": ready, "pprio": pp,
+                       "has_prefill": q.prefill.is_some(), "pset": ps})
+            })
+            .collect();
+
+        let mut redirects: Vec<Value> = scheduler_state
+            .redirects
+            .iter()
+            .map(|(t, (w, v))| json!({"t": task_id_num(*t), "w": w.as_num(), "v": v.as_num()}))
+            .collect();
+        redirects.sort_by_key(|r| r["t"].as_u64());
+
+        let requests: Vec<Value> = request_map
+            .iter()
+            .map(|rqv| {
+                let variants: Vec<Value> = rqv
+                    .requests()
+                    .iter()
+                    .map(|rq| {
+                        let entries: Vec<Value> = rq
+                            .entries()
+                            .iter()
+                            .map(|e| {
+                                json!({"r": e.resource_id.as_num(),
+                                       "amount": e.request.amount_or_none_if_all().map(amount_json).unwrap_or(json!(-1))})
+                            })
+                            .collect();
+                        json!({"n_nodes": rq.n_nodes(), "entries": entries,
+                               "min_time_s": rq.min_time().as_secs()})
+                    })
+                    .collect();
+                json!(variants)
+            })
+            .collect();
+
+        json!({
+            "tasks": tasks, "workers": workers, "queues": queues, "redirects": redirects,
+            "requests": requests, "need_sched": self.comm_ref.get().get_scheduling_flag(),
+            "worker_counter": core.worker_counter(),
+        })
+    }
+}
+
+/// A worker state machine without a socket.
+pub struct SimWorker {
+    pub worker_id: WorkerId,
+    state_ref: WorkerStateRef,
+    outbox: UnboundedReceiver<Bytes>,
+}
+
+impl SimWorker {
+    pub fn new(
+        configuration: WorkerConfiguration,
+        response: WorkerRegistrationResponse,
+        launcher: Box<dyn TaskLauncher>,
+    ) -> Self {
+        let WorkerRegistrationResponse {
+            worker_id,
+            other_workers,
+            resource_names,
+            resource_rq_map,
+            server_uid,
+            ..
+        } = response;
+        let (queue_sender, queue_receiver) = unbounded_channel::<Bytes>();
+        let comm = WorkerComm::new(queue_sender);
+        let state_ref = WorkerStateRef::new(
+            comm,
+            worker_id,
+            configuration,
+            ResourceIdMap::from_vec(resource_names),
+            resource_rq_map,
+            launcher,
+            server_uid,
+        );
+        {
+            let mut state = state_ref.get_mut();
+            for worker_info in other_workers {
+                state.new_worker(worker_info);
+            }
+        }
+        SimWorker {
+            worker_id,
+            state_ref,
+            outbox: queue_receiver,
+        }
+    }
+
+    /// `process_worker_message`; returns true when the worker was told to stop.
+    pub fn recv(&mut self, message: ToWorkerMessage) -> bool {
+        let mut state = self.state_ref.get_mut();
+        process_worker_message(&mut state, message)
+    }
+
+    pub fn take_messages(&mut self) -> Vec<FromWorkerMessage> {
+        let mut out = Vec::new();
+        while let Ok(data) = self.outbox.try_recv() {
+            out.push(deserialize(&data).unwrap());
+        }
+        out
+    }
+
+    /// Makes the worker believe that `elapsed` of its life time has passed.
+    pub fn set_elapsed(&mut self, elapsed: Duration) {
+        self.state_ref.get_mut().start_time = Instant::now() - elapsed;
+    }
+
+    /// Spawns the periodic retract check of `run_worker` on the current `LocalSet`.
+    pub fn spawn_retract_check(&self, interval: Duration) -> tokio::task::JoinHandle<()> {
+        tokio::task::spawn_local(crate::internal::worker::rpc::verif_retract_check_process(
+            interval,
+            self.state_ref.clone(),
+        ))
+    }
+
+    /// What `cancel_running_tasks_on_worker_end` does when the worker process ends.
+    pub fn shutdown(&mut self) {
+        let mut state = self.state_ref.get_mut();
+        state.drop_non_running_tasks();
+        for task in state.running_tasks.values_mut() {
+            task.cancel();
+        }
+    }
+
+    pub fn snapshot(&self) -> Value {
+        let state = self.state_ref.get();
+        let mut running: Vec<Value> = state
+            .running_tasks
+            .values()
+            .map(|rt| {
+                let alloc: Vec<Value> = rt
+                    .allocation
+                    .resources
+                    .iter()
+                    .map(|ra| {
+                        let idx: Vec<Value> = ra
+                            .indices
+                            .iter()
+                            .map(|i| json!({"i": i.index.as_num(), "g": i.group_idx, "f": i.fractions}))
+                            .collect();
+                        json!({"r": ra.resource_id.as_num(), "amount": amount_json(ra.amount), "idx": idx})
+                    })
+                    .collect();
+                json!({"t": task_id_num(rt.task.id), "inst": rt.task.instance_id.as_num(),
+                       "v": rt.rv_id.as_num(), "rq": rt.task.resource_rq_id.as_num(), "alloc": alloc})
+            })
+            .collect();
+        running.sort_by_key(|r| r["t"].as_u64());
+        let mut backlog: Vec<Value> = state
+            .prefilled_tasks
+            .iter()
+            .map(|(rq, ts)| {
+                json!({"rq": rq.as_num(),
+                       "tasks": ts.iter().map(|t| json!({"t": task_id_num(t.id), "inst": t.instance_id.as_num()})).collect::<Vec<_>>()})
+            })
+            .filter(|b| !b["tasks"].as_array().unwrap().is_empty())
+            .collect();
+        backlog.sort_by_key(|b| b["rq"].as_u64());
+        let mut blocked: Vec<Value> = state
+            .blocked_requests
+            .iter()
+            .map(|(rq, v)| json!([rq.as_num(), v.as_num()]))
+            .collect();
+        blocked.sort_by_key(|b| (b[0].as_u64(), b[1].as_u64()));
+        json!({"id": self.worker_id.as_num(), "running": running, "backlog": backlog, "blocked": blocked})
+    }
+}
+
+pub fn encode_to_worker(msg: &ToWorkerMessage) -> Bytes {
+    serialize(msg).unwrap().into()
+}
+
+pub fn now() -> Instant {
+    Instant::now()
+}
